@@ -1286,6 +1286,10 @@ class Sym:
                 rg_ = strip(t[2][1])
                 if rg_[0] == "aggr" and rg_[1].endswith("RangeFull::RangeFull"):
                     return self.name(t[2][0])             # `&v[..]` is the whole of v
+                if rg_[0] == "aggr" and rg_[1].startswith("adt:std::ops::Range"):
+                    rp_ = self.region_poly(t)
+                    if rp_ is not None:
+                        return self.rp_name(rp_)          # a sub-range of a region of the input is a region
             if short(t[1]) in ("Result::<T, E>::map", "Option::<T>::map") and len(t[2]) == 2:
                 # `r.map(f)` on a path where r is a known Ok(v)/Err(e) (an expanded helper's result): Ok(f(v)) / Err(e)
                 in_ = self.name(t[2][0])
